@@ -155,8 +155,8 @@ func runStressRound(res *childResult, seed int64, child, round int, cfg stressCf
 	extraOps := []opRec{} // ops issued from handlers (self-unregistration)
 	mkSub := func(typ pb.XuperMessage_MessageType, self bool, r *rand.Rand) *recSub {
 		cfgS := subCfg{ID: len(subs), typ: typ,
-			BC:    pickW(r, []string{"", "xuper", "hello"}, []int{50, 30, 20}),
-			From:  pickW(r, []string{"", "peerA", "peerB"}, []int{60, 25, 15}),
+			BC:   pickW(r, []string{"", "xuper", "hello"}, []int{50, 30, 20}),
+			From: pickW(r, []string{"", "peerA", "peerB"}, []int{60, 25, 15}),
 			// handler style only: a channel subscriber's deliveries could not be attributed to one of two attempts
 			Style: pickW(r, []string{"handler", "handler-nilresp"}, []int{96, 4}), SelfUnreg: self}
 		if self {
